@@ -118,7 +118,9 @@ type recCfg struct {
 	inner, outer ecc.ID
 	cost         int // relative cost of one in-circuit evaluation (limits the faults per run)
 	eval         func(ccs constraint.ConstraintSystem, vk, proof any, pub witness.Witness, fixedVk bool) error
-	keys         map[string]*recKey
+	// evalSwitch: the key-switching variant (two keys in the outer circuit, an index selects one)
+	evalSwitch func(ccs constraint.ConstraintSystem, vks [2]any, idx int, proof any, pub witness.Witness) error
+	keys       map[string]*recKey
 }
 
 type g16Outer[FR emulated.FieldParams, G1El algebra.G1ElementT, G2El algebra.G2ElementT, GtEl algebra.GtElementT] struct {
@@ -157,6 +159,99 @@ func g16Eval[FR emulated.FieldParams, G1El algebra.G1ElementT, G2El algebra.G2El
 		assignment := &g16Outer[FR, G1El, G2El, GtEl]{InnerWitness: cw, Proof: cp, VerifyingKey: cvk}
 		if fixedVk {
 			circuit.VerifyingKey = cvk
+		}
+		return test.IsSolved(circuit, assignment, outer)
+	}
+}
+
+type g16SwitchOuter[FR emulated.FieldParams, G1El algebra.G1ElementT, G2El algebra.G2ElementT, GtEl algebra.GtElementT] struct {
+	Proof        stdgroth16.Proof[G1El, G2El]
+	Keys         [2]stdgroth16.VerifyingKey[G1El, G2El, GtEl]
+	Idx          frontend.Variable
+	InnerWitness stdgroth16.Witness[FR]
+}
+
+func (c *g16SwitchOuter[FR, G1El, G2El, GtEl]) Define(api frontend.API) error {
+	v, err := stdgroth16.NewVerifier[FR, G1El, G2El, GtEl](api)
+	if err != nil {
+		return err
+	}
+	vk, err := v.SwitchVerificationKey(c.Idx, c.Keys[:])
+	if err != nil {
+		return err
+	}
+	return v.AssertProof(vk, c.Proof, c.InnerWitness)
+}
+
+func g16EvalSwitch[FR emulated.FieldParams, G1El algebra.G1ElementT, G2El algebra.G2ElementT, GtEl algebra.GtElementT](outer *big.Int) func(constraint.ConstraintSystem, [2]any, int, any, witness.Witness) error {
+	return func(ccs constraint.ConstraintSystem, vks [2]any, idx int, proof any, pub witness.Witness) error {
+		circuit := &g16SwitchOuter[FR, G1El, G2El, GtEl]{
+			Proof:        stdgroth16.PlaceholderProof[G1El, G2El](ccs),
+			InnerWitness: stdgroth16.PlaceholderWitness[FR](ccs),
+		}
+		assignment := &g16SwitchOuter[FR, G1El, G2El, GtEl]{Idx: idx}
+		for i := range vks {
+			cvk, err := stdgroth16.ValueOfVerifyingKey[G1El, G2El, GtEl](vks[i].(groth16.VerifyingKey))
+			if err != nil {
+				return err
+			}
+			circuit.Keys[i] = stdgroth16.PlaceholderVerifyingKey[G1El, G2El, GtEl](ccs)
+			assignment.Keys[i] = cvk
+		}
+		var err error
+		if assignment.InnerWitness, err = stdgroth16.ValueOfWitness[FR](pub); err != nil {
+			return err
+		}
+		if assignment.Proof, err = stdgroth16.ValueOfProof[G1El, G2El](proof.(groth16.Proof)); err != nil {
+			return err
+		}
+		return test.IsSolved(circuit, assignment, outer)
+	}
+}
+
+type plonkSwitchOuter[FR emulated.FieldParams, G1El algebra.G1ElementT, G2El algebra.G2ElementT, GtEl algebra.GtElementT] struct {
+	Proof        stdplonk.Proof[FR, G1El, G2El]
+	Base         stdplonk.BaseVerifyingKey[FR, G1El, G2El]
+	Keys         [2]stdplonk.CircuitVerifyingKey[FR, G1El]
+	Idx          frontend.Variable
+	InnerWitness stdplonk.Witness[FR]
+}
+
+func (c *plonkSwitchOuter[FR, G1El, G2El, GtEl]) Define(api frontend.API) error {
+	v, err := stdplonk.NewVerifier[FR, G1El, G2El, GtEl](api)
+	if err != nil {
+		return err
+	}
+	vk, err := v.SwitchVerificationKey(c.Base, c.Idx, c.Keys[:])
+	if err != nil {
+		return err
+	}
+	return v.AssertProof(vk, c.Proof, c.InnerWitness, stdplonk.WithCompleteArithmetic())
+}
+
+func plonkEvalSwitch[FR emulated.FieldParams, G1El algebra.G1ElementT, G2El algebra.G2ElementT, GtEl algebra.GtElementT](outer *big.Int) func(constraint.ConstraintSystem, [2]any, int, any, witness.Witness) error {
+	return func(ccs constraint.ConstraintSystem, vks [2]any, idx int, proof any, pub witness.Witness) error {
+		circuit := &plonkSwitchOuter[FR, G1El, G2El, GtEl]{
+			Proof:        stdplonk.PlaceholderProof[FR, G1El, G2El](ccs),
+			InnerWitness: stdplonk.PlaceholderWitness[FR](ccs),
+			Base:         stdplonk.PlaceholderBaseVerifyingKey[FR, G1El, G2El](ccs),
+		}
+		assignment := &plonkSwitchOuter[FR, G1El, G2El, GtEl]{Idx: idx}
+		var err error
+		if assignment.Base, err = stdplonk.ValueOfBaseVerifyingKey[FR, G1El, G2El](vks[0].(plonk.VerifyingKey)); err != nil {
+			return err
+		}
+		for i := range vks {
+			if assignment.Keys[i], err = stdplonk.ValueOfCircuitVerifyingKey[FR, G1El](vks[i].(plonk.VerifyingKey)); err != nil {
+				return err
+			}
+			circuit.Keys[i] = stdplonk.PlaceholderCircuitVerifyingKey[FR, G1El](ccs)
+		}
+		if assignment.InnerWitness, err = stdplonk.ValueOfWitness[FR](pub); err != nil {
+			return err
+		}
+		if assignment.Proof, err = stdplonk.ValueOfProof[FR, G1El, G2El](proof.(plonk.Proof)); err != nil {
+			return err
 		}
 		return test.IsSolved(circuit, assignment, outer)
 	}
@@ -205,9 +300,11 @@ func plonkEval[FR emulated.FieldParams, G1El algebra.G1ElementT, G2El algebra.G2
 
 var recCfgs = []*recCfg{
 	{name: "groth16/bls12_377-in-bw6_761", be: beGroth16, inner: ecc.BLS12_377, outer: ecc.BW6_761, cost: 1,
-		eval: g16Eval[sw_bls12377.ScalarField, sw_bls12377.G1Affine, sw_bls12377.G2Affine, sw_bls12377.GT](ecc.BW6_761.ScalarField())},
+		eval:       g16Eval[sw_bls12377.ScalarField, sw_bls12377.G1Affine, sw_bls12377.G2Affine, sw_bls12377.GT](ecc.BW6_761.ScalarField()),
+		evalSwitch: g16EvalSwitch[sw_bls12377.ScalarField, sw_bls12377.G1Affine, sw_bls12377.G2Affine, sw_bls12377.GT](ecc.BW6_761.ScalarField())},
 	{name: "plonk/bls12_377-in-bw6_761", be: bePlonk, inner: ecc.BLS12_377, outer: ecc.BW6_761, cost: 3,
-		eval: plonkEval[sw_bls12377.ScalarField, sw_bls12377.G1Affine, sw_bls12377.G2Affine, sw_bls12377.GT](ecc.BW6_761.ScalarField())},
+		eval:       plonkEval[sw_bls12377.ScalarField, sw_bls12377.G1Affine, sw_bls12377.G2Affine, sw_bls12377.GT](ecc.BW6_761.ScalarField()),
+		evalSwitch: plonkEvalSwitch[sw_bls12377.ScalarField, sw_bls12377.G1Affine, sw_bls12377.G2Affine, sw_bls12377.GT](ecc.BW6_761.ScalarField())},
 	{name: "groth16/bn254-in-bn254", be: beGroth16, inner: ecc.BN254, outer: ecc.BN254, cost: 100,
 		eval: g16Eval[sw_bn254.ScalarField, sw_bn254.G1Affine, sw_bn254.G2Affine, sw_bn254.GTEl](ecc.BN254.ScalarField())},
 }
@@ -400,9 +497,63 @@ func c17Run(w *Worker, tape *simrt.Tape) *Outcome {
 		ccs := key.ccs
 		fixedVk := tape.Choose(simrt.SFault, 3) == 0
 		var fdesc string
-		kindF := tape.Choose(simrt.SFault, 9)
+		kindF := tape.Choose(simrt.SFault, 11)
 		if f == 0 {
 			kindF = 0
+		}
+		if kindF >= 9 {
+			// key switching: two keys in the outer circuit, an index selects the one to verify
+			// against; the delivered proof may be for either key
+			if rc.evalSwitch == nil || kind != "A" {
+				continue
+			}
+			idx := tape.Choose(simrt.SFault, 2)
+			from := tape.Choose(simrt.SFault, 2)
+			ks := [2]*recKey{key, keyB}
+			vkA, _ := rc.cloneVK(key)
+			vkB, _ := rc.cloneVK(keyB)
+			vks := [2]any{vkA, vkB}
+			pr, _ := cloneProof(rc.be, rc.inner, ks[from].proofs[si])
+			pw := ks[from].pubs[si]
+			if tape.Choose(simrt.SFault, 4) == 0 {
+				pw = ks[1-from].pubs[si] // and the other circuit's public inputs
+			}
+			fdesc = fmt.Sprintf("key switching: index %d selects key %s, delivered proof is for key %s", idx, []string{"A", "B"}[idx], []string{"A", "B"}[from])
+			o.fault("key_switching")
+			nerr, npan := rc.nativeVerify(pr, vks[idx], pw)
+			if npan != "" {
+				o.violate("verify-panic", "verify-panic:"+where+":"+panicSite(npan), "native Verify panicked: "+npan+"\nfault: "+fdesc)
+				return o
+			}
+			var cerr error
+			cpan := guard(func() { cerr = rc.evalSwitch(key.ccs, vks, idx, pr, pw) })
+			o.Evals++
+			if (nerr == nil) != (cerr == nil && cpan == "") {
+				class, what := "recursive-accepts-native-rejects", "the key-switching in-circuit verifier is satisfied although the native verifier rejects the proof under the selected key"
+				detail := ""
+				if nerr == nil {
+					class, what = "native-accepts-recursive-rejects", "the key-switching in-circuit verifier is unsatisfiable although the native verifier accepts the proof under the selected key"
+					if cerr != nil {
+						detail = cerr.Error()
+					}
+					if cpan != "" {
+						detail = "panic: " + cpan
+					}
+				} else {
+					detail = "native: " + nerr.Error()
+				}
+				if o.violateOrKnown(w, class, class+":"+where+":key-switching", what+"\nfault: "+fdesc+"\n"+truncate(detail, 1500)) {
+					o.Viol.Faults = []string{fdesc}
+					return o
+				}
+			}
+			if nerr == nil {
+				o.probe("native_accepts")
+			} else {
+				o.probe("native_rejects")
+			}
+			descs = append(descs, fdesc)
+			continue
 		}
 		switch kindF {
 		case 0:
